@@ -282,6 +282,29 @@ func (c *c04Ctx) burstsFor(n int, randPerOff int, fullWindows int) []c04Burst {
 func (c *c04Ctx) runBursts(f c04File, bursts []c04Burst, specEvery, modelEvery int) error {
 	r := c.r
 	n := c04FrameLen(f.Data)
+	// aimed bursts first: the ones that turn a stored checksum into 0x0000 ("no checksum" for headers, never for
+	// the file), wholly or starting in the byte before it
+	if n >= 16 && n <= len(f.Data) {
+		aim := func(off int, p uint32) {
+			if p == 0 || p > 0xFFFF {
+				return
+			}
+			if e, ok := burstBytes(n, off, p); ok && burstInDomain(e) {
+				bursts = append([]c04Burst{{off, p, "aimed_zero_crc"}}, bursts...)
+			}
+		}
+		fc := uint32(f.Data[n-2]) | uint32(f.Data[n-1])<<8
+		aim(8*(n-2), fc)
+		for sh := 1; sh < 8; sh++ {
+			// the same zeroing with up to 7 more (flipped) bits of the last data byte in front
+			if p := fc<<uint(sh) | 1; p <= 0xFFFF && fc<<uint(sh)>>uint(sh) == fc {
+				aim(8*(n-2)-sh, p)
+			}
+		}
+		if f.Data[0] == 14 {
+			aim(8*12, uint32(f.Data[12])|uint32(f.Data[13])<<8)
+		}
+	}
 	type pend struct {
 		b      c04Burst
 		dc, ic int
@@ -611,6 +634,40 @@ func c04SmallStream(rg *rng, st genStats, maxRecords int) c04File {
 	return c04File{Origin: "genstream", Name: fmt.Sprintf("hdr%d/%s/records%d", s.HdrSize, s.HdrCRC, len(s.Records)), Data: s.bytes()}
 }
 
+// c04AlignedStream builds a valid stream whose data size is exactly target: a generated stream padded with
+// records of a message outside the profile (one byte-array field).
+func c04AlignedStream(rg *rng, st genStats, target int) (c04File, bool) {
+	for tries := 0; tries < 200; tries++ {
+		cfg := defaultCfg()
+		cfg.maxRecords = 20 + rg.intn(200)
+		cfg.illFormed, cfg.secondFid, cfg.zeroFields = 0, 0, 0
+		s := genStream(rg, &cfg, st)
+		rem := target - len(s.dataBytes())
+		if rem < 20 {
+			continue
+		}
+		s.Records = append(s.Records, record{Kind: "D", Local: 14, Gmn: 0xFF01, Fields: []fieldDefS{{1, 200, 0x0D}}})
+		rem -= 9
+		for rem-201 >= 11 {
+			s.Records = append(s.Records, record{Kind: "M", Local: 14, Pay: rg.bytes(200)})
+			rem -= 201
+		}
+		k := rem - 10
+		s.Records = append(s.Records, record{Kind: "D", Local: 15, Gmn: 0xFF02, Fields: []fieldDefS{{1, byte(k), 0x0D}}},
+			record{Kind: "M", Local: 15, Pay: rg.bytes(k)})
+		s.fillHex()
+		if len(s.dataBytes()) != target {
+			continue
+		}
+		data := s.bytes()
+		if dc, _ := c04Decode(data, nil); dc != 0 {
+			continue // a generator accident (e.g. an array field defined with zero elements): take another stream
+		}
+		return c04File{Origin: "genstream", Name: fmt.Sprintf("hdr%d/%s/datasize%d", s.HdrSize, s.HdrCRC, target), Data: data}, true
+	}
+	return c04File{}, false
+}
+
 func c04Encoded(rg *rng, st genStats, maxPer int) (c04File, bool) {
 	cfg := &fileGenCfg{inDomain: true, allowCsd: false, maxPerSlt: maxPer}
 	fc := genFile(rg, cfg, st)
@@ -748,6 +805,32 @@ func runC04(args []string) int {
 		if ok {
 			r.Hist["valid_len_"+bucket(len(f.Data))]++
 			large = append(large, f)
+		}
+	}
+	// data sizes aimed at the block sizes of the readers involved (the decoder's 4096-byte buffer, io.CopyN's
+	// 32 KiB buffer): exactly on, just below and just above a multiple
+	targets := []int{4096, 8192, 4095, 4097, 12288, 32768, 32769}
+	if thorough {
+		for k := 1; k <= 20; k++ {
+			targets = append(targets, 4096*k, 4096*k+1, 4096*k-1)
+		}
+		targets = append(targets, 65536, 65535, 65537)
+	}
+	for _, tg := range targets {
+		f, ok := c04AlignedStream(c.rg, st, tg)
+		if !ok {
+			continue
+		}
+		ok, err := c.checkAccept(f, false)
+		if err != nil {
+			return fail(err)
+		}
+		r.Hist["aimed_data_size_files"]++
+		if ok {
+			r.Hist["valid_len_"+bucket(len(f.Data))]++
+			large = append(large, f)
+		} else {
+			r.corrFail("aimed_size_rejected", fmt.Sprintf("a generated file with data size %d is not accepted", tg), map[string]interface{}{"input_hex": hexs(f.Data)})
 		}
 	}
 	for i := 0; i < nEnc; i++ {
